@@ -140,6 +140,7 @@ def run_cmd(tu, c):
         else: tu.set_time_override(v)
         return 'None'
     if k == 'clear': tu.clear_time_override(); return 'None'
+    if k.startswith('fx_'): return run_fixture_cmd(tu, c)
     if k == 'adv': tu.advance_time_delta(TD(microseconds=c[1])); return 'None'
     if k == 'advs': tu.advance_time_seconds(secs_value(c[1])); return 'None'
     if k in ('older', 'newer', 'soon'):
@@ -158,6 +159,27 @@ def run_cmd(tu, c):
         return '%d,%d,%d,%d,%d,%d,%d' % (d.year, d.month, d.day, d.hour, d.minute, d.second, d.microsecond)
     if k == 'mk': return show_dt(D(*c[1]))
     if k == 'isofmt': return mkdt(c[1]).isoformat()
+    raise KeyError(k)
+
+_FX = {'f': None}
+def run_fixture_cmd(tu, c):
+    """the same clock operations through oslo_utils.fixture.TimeFixture"""
+    from oslo_utils import fixture
+    k = c[0]
+    if k == 'fx_set':
+        if _FX['f'] is not None: _FX['f'].cleanUp()
+        v = mkov(c[1])
+        f = fixture.TimeFixture() if (c[1] is None or c[1]['k'] == 'no') else fixture.TimeFixture(v)
+        f.setUp(); _FX['f'] = f
+        return 'None'
+    f = _FX['f']
+    if k == 'fx_cleanup':
+        if f is not None: f.cleanUp(); _FX['f'] = None
+        else: tu.clear_time_override()
+        return 'None'
+    if f is None: f = fixture.TimeFixture()       # the advance methods do not need setUp
+    if k == 'fx_adv': f.advance_time_delta(TD(microseconds=c[1])); return 'None'
+    if k == 'fx_advs': f.advance_time_seconds(secs_value(c[1])); return 'None'
     raise KeyError(k)
 
 def show_mrec(m):
@@ -181,6 +203,7 @@ def impl(case):
         outs.append(show_ov(tu.utcnow.override_time))
     finally:
         tu.datetime = saved_mod
+        _FX['f'] = None
         tu.utcnow.override_time = None
     return ';'.join(outs)
 
@@ -210,6 +233,8 @@ def enc_targ(t):
 
 def enc_cmd(c):
     k = c[0]
+    if k.startswith('fx_'):
+        return enc_cmd([{'fx_set': 'set', 'fx_cleanup': 'clear', 'fx_adv': 'adv', 'fx_advs': 'advs'}[k]] + list(c[1:]))
     if k in ('now', 'ts'): return [k, 'True' if c[1] else 'False']
     if k == 'set': return ['set'] + enc_ov(c[1])
     if k == 'clear': return ['clear']
@@ -455,6 +480,16 @@ def gen_cmp(rng):
         targ = {'d': {'w': t, 'tz': None}}
     return case('cmp', [[which, targ, s]], ov={'k': 'one', 'd': {'w': now, 'tz': None}})
 
+def gen_fixture(rng):
+    """the clock clause through TimeFixture (kind clock: same oracle)"""
+    t0 = rand_wall(rng)
+    cmds = [['fx_set', {'k': 'one', 'd': {'w': t0, 'tz': None}}], ['now', False], ['ts', True]]
+    for _ in range(rng.randint(1, 4)):
+        cmds.append(['fx_adv', rng.choice([0, 1, -1, 10**6, DAY, rng.randint(-10**12, 10**12), MAX_US - t0, -t0, -t0 - 1])] if rng.random() < 0.5 else ['fx_advs', rand_secs(rng)])
+        cmds.append(['now', False])
+    if rng.random() < 0.5: cmds += [['fx_cleanup'], ['now', False]]
+    return case('fixture', cmds, ov={'k': 'no'})
+
 def rand_ov(rng):
     r = rng.random()
     if r < 0.15: return {'k': 'no'}
@@ -540,7 +575,7 @@ def fixed_cases():
                     ov={'k': 'many', 'l': [{'w': 5, 'tz': None}, {'w': MAX_US, 'tz': None}]}))
     return out
 
-GENS = [(gen_norm, 10), (gen_iso, 10), (gen_marsh, 10), (gen_leap, 5), (gen_unm, 8), (gen_clock, 12), (gen_cmp, 25), (gen_seq, 10), (gen_parse, 5), (gen_cal, 8), (gen_dsec, 4)]
+GENS = [(gen_fixture, 4), (gen_norm, 10), (gen_iso, 10), (gen_marsh, 10), (gen_leap, 5), (gen_unm, 8), (gen_clock, 12), (gen_cmp, 25), (gen_seq, 10), (gen_parse, 5), (gen_cal, 8), (gen_dsec, 4)]
 def gen_cases(rng, tier):
     yield from fixed_cases()
     n = 5000 if tier == 'quick' else 150000
@@ -603,10 +638,13 @@ def oracle(c, io):
             want = D(f['year'], f['month'], f['day'], f['hour'], f['minute'], 59, f['microsecond'])
             r = parse_dt_out(outs[0])
             if r is None or r[0] != wall_us(want): return 'unmarshall_time with second=%d gives %s, expected second 59' % (f['second'], outs[0])
-    elif kind == 'clock':
-        cur = c['ov']['d']['w']
+    elif kind in ('clock', 'fixture'):
+        cur = c['ov']['d']['w'] if kind == 'clock' else None
         for cmd, o in zip(c['cmds'], outs):
             k = cmd[0]
+            if k.startswith('fx_'): k = {'fx_set': 'set', 'fx_cleanup': 'clear', 'fx_adv': 'adv', 'fx_advs': 'advs'}[k]
+            if k == 'set': cur = cmd[1]['d']['w']; continue
+            if k == 'clear': break
             if k == 'now':
                 if parse_dt_out(o) != (cur, None, 'N'): return 'utcnow() under override = %s, the overridden instant is %d us' % (o, cur)
             elif k == 'ts':
@@ -615,6 +653,7 @@ def oracle(c, io):
                 if o != want: return 'utcnow_ts(%s) under override = %s, expected %s' % (cmd[1], o, want)
             elif k in ('adv', 'advs'):
                 dlt = cmd[1] if k == 'adv' else secs_us(cmd[1])
+                if dlt is not None and abs(dlt) > 10**20: return None
                 if dlt is None: return None
                 if in_rng(cur + dlt):
                     if o != 'None': return 'advance by %d us raised %s' % (dlt, o)
@@ -649,6 +688,23 @@ def oracle(c, io):
                                                                   targ.get('s', t.isoformat()), secs_value(s), now.isoformat(), outs[0], want)
     return None
 
+def extra_checks(rng, tier):
+    """without an override utcnow()/utcnow_ts() read the OS clock (bracketed by two direct readings)"""
+    import time as _time
+    tu = _tu()
+    tu.clear_time_override()
+    for i in range(20):
+        a = D.now(UTC).replace(tzinfo=None); x = tu.utcnow(); y = tu.utcnow(with_timezone=True); b = D.now(UTC).replace(tzinfo=None)
+        msg = None
+        if not (a <= x <= b) or x.tzinfo is not None: msg = 'utcnow() without override = %r, OS clock in [%r, %r]' % (x, a, b)
+        elif y.utcoffset() != TD(0) or not (a <= y.replace(tzinfo=None) <= b): msg = 'utcnow(with_timezone=True) without override = %r' % (y,)
+        yield 'real-clock', {'op': 'real-clock', 'kind': 'real-clock', 'i': i}, msg
+        t0 = _time.time(); u = tu.utcnow_ts(); v = tu.utcnow_ts(microsecond=True); t1 = _time.time()
+        msg = None
+        if not isinstance(u, int) or not (int(t0) <= u <= int(t1)): msg = 'utcnow_ts() without override = %r' % (u,)
+        elif not isinstance(v, float) or not (t0 <= v <= t1): msg = 'utcnow_ts(True) without override = %r' % (v,)
+        yield 'real-clock-ts', {'op': 'real-clock', 'kind': 'real-clock-ts', 'i': i}, msg
+
 def zone(c):
     kind = c.get('kind')
     if kind == 'cmp' and c['cmds'][0][0] == 'soon' and 's' in c['cmds'][0][1]: return 'soon-str'
@@ -668,8 +724,35 @@ def classify(c, io):
 def trivial(c, io):
     return False
 
-LEVEL_TEXT = ''
-LEVEL_NOTE = ''
-TRUSTED = []
-ASSUMPTIONS = []
-RULE = ''
+LEVEL_TEXT = ('Unbounded theorems (Coq) about the statement-by-statement translation of timeutils.py regenerated on every run: '
+              'normalize_time is the identity on naive datetimes and maps an aware one to the naive reading of wall - utcoffset (OverflowError '
+              'exactly when that is outside datetime.min..max); the proleptic Gregorian calendar and time-of-day split used for the fields are '
+              'bijections for every day number >= 0 / every valid date (arithmetic proof, no bound); unmarshall_time(marshall_now(d)) = d for naive '
+              'd and gives the same wall reading with offset 0 for UTC d, a second >= 59 is read as 59, the seven fields carry the microseconds; '
+              'under a scalar override utcnow returns it, utcnow_ts is (wall div 10^6) - 62135596800 resp. that plus microsecond/10^6 exactly, any '
+              'sequence of advance_time_delta/seconds moves the instant by the exact sum (induction), OverflowError moves nothing; is_older_than / '
+              'is_newer_than / is_soon hold iff now - t > s, t - now > s, t <= now + w for naive, aware and parser-resolved string t. '
+              'iso8601 and isoformat are modelled for the isoformat() shape and proved inverse for whole-minute offsets. Two clauses are refuted '
+              'with witnesses replayed on the implementation: is_soon with a string (AttributeError), isoformat() of sub-minute offsets (ValueError).')
+LEVEL_NOTE = ('Trusted: Coq kernel; tools/gen/gen_C12.py (typed AST translation; four idiomatic functions recognised as whole-AST templates); CPython datetime '
+              'arithmetic as modelled in Model/C12_Prim.v (tied by the correspondence: fields, constructor validation, overflow, naive/aware TypeError); '
+              'timedelta(seconds=float) rounding, float arithmetic of utcnow_ts/total_seconds, utcoffset()/tzname() of tzinfo objects, zoneinfo and iso8601 '
+              'outside the modelled shape are computed by CPython in the harness and passed to the model as integers (contracts appear as premises). '
+              'All Print Assumptions: Closed under the global context.')
+TRUSTED = ['datetime.timedelta(seconds=x) / timedelta(0, x): the conversion of a Python number to microseconds (round-half-even) is done by CPython in the harness; second counts reach the model in microseconds',
+           'tzinfo.utcoffset(dt) and tzinfo.tzname(None) (fixed offsets, zoneinfo zones incl. fold) are evaluated by CPython and passed as integers/strings',
+           'zoneinfo.ZoneInfo(key) is an oracle of the world (lib_zone); theorem contract: the key UTC exists with offset 0 — tested on every marshalling case',
+           'iso8601.parse_date is modelled in Coq (Model/C12_Iso.v) for isoformat()-shaped text and is an oracle of the world (lib_parse) elsewhere',
+           'float results (utcnow_ts(True), delta_seconds) are returned by the model as exact expressions and evaluated with CPython float arithmetic by the harness',
+           'the OS clock is replaced in the harness by a fake datetime.now (module attribute of timeutils patched during a case); real-clock behaviour is bracketed by extra checks']
+ASSUMPTIONS = ['second counts are compared at microsecond resolution: s means timedelta(seconds=s) (CPython rounds a float half-even to 1 us), so a sub-microsecond fraction is not distinguished',
+               'the overridden clock is naive UTC (an aware override makes the comparisons raise TypeError: modelled, not part of the theorems); an override in a zoneinfo zone with a varying offset is not modelled',
+               'a list override is popped per call and is NOT moved by advance_time_* (modelled, correspondence only; the property speaks of a single instant)',
+               'parse_strtime / PERFECT_TIME_FORMAT (strptime) is library behaviour and not part of the property text: not modelled',
+               'timedelta range (|days| <= 999999999) is not modelled: generated second counts stay inside it or the case is implementation-only']
+RULE = ('cases = world (override slot, fake OS clock) + command list; kinds: norm (naive/aware x fixed offsets -23:59..+23:59, sub-minute offsets, %d zoneinfo zones incl. fold), '
+        'iso (isoformat -> parse_isotime), marsh (marshall_now + round trip; naive/UTC variants/other zones), leap (second 58..99), unm (arbitrary dicts, tznames), '
+        'clock / fixture (scalar override, utcnow, utcnow_ts, 1-6 advances by delta or seconds, through the functions and through TimeFixture), cmp (is_older/newer/soon with t placed at '
+        'the boundary now -/+ s and +-1 us, +-2 us, +-1 s, rendered naive / aware / ISO text), seq (random command sequences incl. list overrides, aware overrides, clear), parse (malformed and mutated ISO text), '
+        'cal (field split / constructor validation), dsec; walls drawn from datetime.min/max neighbourhoods, leap days, epoch, month/year ends, uniform; seconds from ints, exact-boundary, negative, '
+        'fractional, sub-microsecond; 121 fixed boundary cases first; distinct = distinct case JSON; trivial = none') % len(ZONES)
